@@ -23,7 +23,7 @@ theorem runNode_list (cfg : Cfg) (h : cfg.action = .list) (w : W) (po : Option O
 end
 
 /-- the `--list` walk (`Action::List`) invokes no benchmarked function, for every tree -/
-theorem list_action_executes_nothing (cfg : Cfg) (h : cfg.action = .list) (p : P) (ts : List Tree) :
+theorem list_action_executes_nothing (cfg : Cfg) (h : cfg.action = .list) (p : Paint.P) (ts : List Tree) :
     (runTree cfg { p := p } none "" ts).execs = [] := runTree_list cfg h _ none "" ts
 
 /-! ### the terse listing is exactly what a run executes -/
@@ -88,7 +88,7 @@ end
 /-- **C14**: for every tree, filter result and ignore flag, the terse listing prints exactly one line
     `path: benchmark` for every case the run walk hands to a `Bencher` (same order, same multiplicity),
     and nothing else. `cases` is the ghost record of the full display path of each executed case. -/
-theorem terse_eq_executed (cfg : Cfg) (hl : cfg.action ≠ .list) (p : P) (ts : List Tree) :
+theorem terse_eq_executed (cfg : Cfg) (hl : cfg.action ≠ .list) (p : Paint.P) (ts : List Tree) :
     terseList cfg none "" ts = (runTree cfg { p := p } none "" ts).cases.reverse.map line := by
   have := runTree_cases cfg hl none "" ts { p := p }
   simpa using this.symm
@@ -111,7 +111,7 @@ end
 /-- the listing under `--list --format terse` (whatever action the listing configuration carries)
     agrees with a *test run* made with the same ignore flag and run-time options -/
 theorem terse_eq_test_run (cl cr : Cfg) (hr : cr.action = .test) (h1 : cl.runIgnored = cr.runIgnored)
-    (h2 : cl.runtime = cr.runtime) (p : P) (ts : List Tree) :
+    (h2 : cl.runtime = cr.runtime) (p : Paint.P) (ts : List Tree) :
     terseList cl none "" ts = (runTree cr { p := p } none "" ts).cases.reverse.map line := by
   rw [terseList_congr cl cr h1 h2]
   exact terse_eq_executed cr (by rw [hr]; decide) p ts
